@@ -14,6 +14,7 @@ import (
 	"verifharness/fsx"
 	"verifharness/mon"
 	"verifharness/refcodec"
+	"verifharness/wire"
 )
 
 // C11: server shutdown is prompt, complete and crash-free at any moment.
@@ -36,7 +37,7 @@ func init() {
 		Shards:    shards(8, 16),
 		Timeout:   timeouts(4*time.Minute, 40*time.Minute),
 		MinEvals:  200,
-		Required:  []string{"fault:read-error", "fault:read-eof", "fault:write-fail", "fault:write-fail-parked", "fault:ctx-cancel", "fault:ctx-cancel-writer-busy", "ctx_cancelled_while_writer_busy", "auth_fids_at_stop", "inflight:error-on-cancel", "inflight:succeed-after-cancel", "inflight:none", "handlers_in_flight_at_fault", "ctx_done_checks", "serve_returned", "stop_once", "tables_empty", "entries_bound_after_cancel"},
+		Required:  []string{"fault:read-error", "fault:read-eof", "fault:write-fail", "fault:write-fail-parked", "fault:ctx-cancel", "fault:ctx-cancel-writer-busy", "read_error_as_net_error", "ctx_cancelled_while_writer_busy", "auth_fids_at_stop", "inflight:error-on-cancel", "inflight:succeed-after-cancel", "inflight:none", "handlers_in_flight_at_fault", "ctx_done_checks", "serve_returned", "stop_once", "tables_empty", "entries_bound_after_cancel"},
 		Run:       runC11,
 	})
 }
@@ -156,6 +157,7 @@ type c11run struct {
 	desc   string
 
 	writerBusy    bool
+	spun          bool
 	flyingAtFault []context.Context // handlers in flight just before the step during which the fault struck
 
 	gmu                sync.Mutex
@@ -249,6 +251,11 @@ func (r *c11run) play(f *c11fault) {
 		case "read-error":
 			r.h.conn.ReadFailAt = inBase + f.index
 			r.h.conn.ReadErr = errors.New("injected read error")
+			if f.index%2 == 1 {
+				// a permanent network error (a net.Error that is neither a timeout nor temporary)
+				r.h.conn.ReadErr = &wire.NetErr{Msg: "read mem: connection reset by peer"}
+				r.w.Count("read_error_as_net_error", 1)
+			}
 		case "read-eof":
 			r.h.conn.ReadFailAt = inBase + f.index
 			r.h.conn.ReadErr = io.EOF
@@ -280,6 +287,11 @@ func (r *c11run) play(f *c11fault) {
 		tag++
 		sent++
 		if !settle() {
+			if n := r.h.conn.ReadsAfterFail(); n > 20000 {
+				r.bad("hang", "server-spins-on-failed-connection", "the connection's reads fail permanently (%v) but the server keeps reading: %d reads after the failure", r.h.conn.ReadErr, n)
+				r.spun = true
+				return
+			}
 			r.w.Inconclusive("watchdog")
 			return
 		}
@@ -411,7 +423,14 @@ func c11Run(w *mon.W, script []c11step, si int, f *c11fault) {
 	w.Eval()
 	w.Count("fault:"+f.kind, 1)
 	w.Count("inflight:"+beh, 1)
+	spinProbe = func() bool { return r.h.conn.ReadsAfterFail() > 20000 }
+	defer func() { spinProbe = nil }()
 	r.play(f)
+	if r.spun {
+		r.releaseAll()
+		r.h.close()
+		return
+	}
 	if f.behave == c11None {
 		r.releaseAll()
 		if !settle() {
@@ -489,6 +508,12 @@ func c11Run(w *mon.W, script []c11step, si int, f *c11fault) {
 		return
 	}
 	if q.Inconclusive {
+		if n := r.h.conn.ReadsAfterFail(); n > 20000 {
+			r.bad("hang", "server-spins-on-failed-connection", "the connection's reads fail permanently (%v) but the server keeps reading: %d reads after the failure", r.h.conn.ReadErr, n)
+			r.releaseAll()
+			r.h.close()
+			return
+		}
 		w.Inconclusive("watchdog waiting for ServeConn: %s", desc)
 		r.releaseAll()
 		r.h.close()
